@@ -33,7 +33,7 @@ TableOk == mode = "table" => /\ Sorted(tbl)
                              /\ InTable(tbl, cp) = (\E i \in 1..Len(tbl) : Contains(tbl[i], cp))
                              /\ Find(tbl, cp) # 0 => Contains(tbl[Find(tbl, cp)], cp)
 
-Ops(xx, c) == [eq |-> EqE(xx, c), lt |-> LtE(xx, c), le |-> LeE(xx, c), gt |-> GtE(xx, c), ge |-> GeE(xx, c), cmp |-> CmpE(xx, c),
+Ops(xx, c) == [eq |-> EqE(xx, c), ne |-> ~EqE(xx, c), mne |-> ~EqC(c, xx), lt |-> LtE(xx, c), le |-> LeE(xx, c), gt |-> GtE(xx, c), ge |-> GeE(xx, c), cmp |-> CmpE(xx, c),
                meq |-> EqC(c, xx), mlt |-> LtC(c, xx), mle |-> LeC(c, xx), mgt |-> GtC(c, xx), mge |-> GeC(c, xx), mcmp |-> CmpC(c, xx)]
 
 Emit == IF mode = "pair"
